@@ -2,6 +2,7 @@ _DX_DEPS = ["checks/dx_common.hpp", "checks/dx_json.hpp", "checks/dx_roundtrip.h
 _DX_SAN = {"src": "checks/dx.cpp", "mode": "msgpack", "arduino": True, "deps": _DX_DEPS}
 _DX_LEN4 = {"src": "checks/dx.cpp", "mode": "msgpack", "arduino": True, "deps": _DX_DEPS, "defs": ["ARDUINOJSON_STRING_LENGTH_SIZE=4"]}
 _DX_BIG = {"src": "checks/dx.cpp", "mode": "msgpack-big", "flavour": "fast", "arduino": True, "deps": _DX_DEPS, "shards": 8, "hang_s": 600}
+_DX_NODOUBLE = {"src": "checks/dx.cpp", "mode": "msgpack", "arduino": True, "deps": _DX_DEPS, "defs": ["ARDUINOJSON_USE_DOUBLE=0"]}
 _DX_FLOATS = {"src": "checks/dx.cpp", "mode": "msgpack-floats", "flavour": "fast", "arduino": True, "deps": _DX_DEPS}
 
 PROPS["C08"] = {
